@@ -24,6 +24,7 @@ global size_of usize == 8;
 //@include prelude/forward_spec.rs
 //@include prelude/sem_spec.rs
 //@include prelude/elim_spec.rs
+//@include prelude/sem_elim_spec.rs
 
 impl DfsNodeData {
 //@assumed units/pwl_regions.rs | extract
@@ -156,20 +157,30 @@ pub fn phase_one(&self, parent_idx: TreeIndex, poly: &Polytope, counter: &mut Pe
 //@bodysub for (label, node) in to_remove { => let mut __j: usize = 0; while __j < to_remove.len() { let (label, node) = to_remove[__j]; __j += 1;
 //@spec
     requires old(self).tree.wf(), K == 2, old(self).tree.root is Some, old(self).a().dom().len() <= i32::MAX,
-        vals_ok(old(self).a(), old(self).in_dim),
+        vals_ok(old(self).a(), old(self).in_dim), dec_one_row(old(self).a()),
     ensures
         // reaching this point at all: none of the unwraps / expects / asserts of the traversal can fire, whatever the LP layer answers
         final(self).tree.wf(), final(self).tree.root == old(self).tree.root, final(self).in_dim == old(self).in_dim,
         // nothing is added, every surviving node keeps its function and its kind - a decision never becomes a terminal - (only cached states change),
         // cached witness lists stay non-empty
         kept_ok(old(self).a(), final(self).a(), old(self).in_dim),
+        // C03 (meaning): the denoted function changes at most for inputs whose evaluation IN THE ORIGINAL TREE passes a blamed node; a node is blamed only
+        // if it was cached infeasible at entry or the LP layer answered Infeasible for the polytope recorded for it - every other input keeps its value
+        // and its undefinedness.  (That this polytope is the node's path region, and that the LP answer is right, is outside this contract.)
+        exists|b: Set<usize>, vp: Map<usize, Polytope>| #![trigger blame_ok(old(self).a(), b, vp)] blame_ok(old(self).a(), b, vp)
+            && forall|h0: Map<usize, nat>, h1: Map<usize, nat>, x: V| #![trigger tree_fn(old(self).a(), h0, old(self).tree.root.unwrap(), x), tree_fn(final(self).a(), h1, old(self).tree.root.unwrap(), x)]
+                ranked_down(old(self).a(), h0) && ranked_down(final(self).a(), h1) && !blamed_path(old(self).a(), h0, old(self).tree.root.unwrap(), b, x)
+                    ==> tree_fn(final(self).a(), h1, old(self).tree.root.unwrap(), x) == tree_fn(old(self).a(), h0, old(self).tree.root.unwrap(), x),
 //@hint loop 1 before
         let ghost a0 = self.a();
         let ghost d0 = self.a().dom();
         let ghost root = self.tree.root.unwrap();
         let ghost mut vis: Set<usize> = Set::<usize>::empty();
         let ghost mut g_stack: Seq<DfsNodeData> = iter.iter.stack@;
-        proof { lemma_el_init(self.a(), root); }
+        let ghost hs = choose|h: Map<usize, nat>| ranked_down(a0, h);
+        let ghost mut b: Set<usize> = a0.dom().filter(|c: usize| a0[c].value.state is Infeasible);
+        let ghost mut vp: Map<usize, Polytope> = Map::<usize, Polytope>::empty();
+        proof { lemma_el_init(self.a(), root); lemma_sem_init(a0, hs, root); }
 //@loop 1
             invariant
                 K == 2, self.in_dim == old(self).in_dim, self.tree.root == Some(root), old(self).tree.root == Some(root),
@@ -181,6 +192,7 @@ pub fn phase_one(&self, parent_idx: TreeIndex, poly: &Polytope, counter: &mut Pe
                 self.tree.wf(), stack_ok(self.a(), g_stack), vals_ok(self.a(), self.in_dim),
                 preds_ok(iter.predicates@, self.in_dim), iter.last_depth < usize::MAX,
                 forall|j: int| 0 <= j < to_remove@.len() ==> (#[trigger] to_remove@[j]).0 < K,
+                ranked_down(a0, hs), dec_one_row(a0), sem_inv(a0, hs, self.a(), root, b), blame_ok(a0, b, vp), tr_ok(self.a(), to_remove@, vis),
             decreases d0.len() - vis.len()
 //@hint loop 1 start
             let ghost s0 = g_stack;
@@ -188,9 +200,11 @@ pub fn phase_one(&self, parent_idx: TreeIndex, poly: &Polytope, counter: &mut Pe
             let ghost s1 = iter.iter.stack@;
             let ghost lp1 = iter.iter.last_push;
             let ghost mut s_cur = s1;
+            let ghost tr0 = to_remove@;
             proof {
                 lemma_el_next(self.a(), root, s0, s1, lp1, data, vis0, d0);
                 vis = vis0.insert(data.index);
+                lemma_tr_mono(self.a(), tr0, vis0, vis);
             }
 //@hint before#1 continue;
                 proof {
@@ -233,12 +247,25 @@ pub fn phase_one(&self, parent_idx: TreeIndex, poly: &Polytope, counter: &mut Pe
                 lemma_kept_write(a0, a_b, self.a(), self.in_dim, node_idx);
                 lemma_el_settle(self.a(), root, s_cur, vis, node_idx, d0);
                 lemma_el_stack_ok(self.a(), root, s_cur, vis, root, d0);
+                // meaning: a new Infeasible mark is an LP verdict for `poly`
+                lemma_sem_write(a0, hs, a_b, self.a(), root, b, node_idx);
+                if skipped {
+                    assert(lp_status(poly) is Infeasible);
+                    b = b.insert(node_idx);
+                    vp = vp.insert(node_idx, poly);
+                }
+                lemma_tr_write(a_b, self.a(), tr0, vis0, node_idx, skipped, label, parent_idx);
+                assert(to_remove@ =~= (if skipped { tr0.push((label, parent_idx)) } else { tr0 }));
             }
 //@hint before self.forward_if_redundant(parent_idx);
                 let ghost a_f = self.a();
 //@hint after self.forward_if_redundant(parent_idx);
                 proof {
                     lemma_fwd_pruned(a_f, self.a(), root, parent_idx);
+                    lemma_el_parent_clean(a_f, root, s_cur, vis, d0, node_idx, parent_idx);
+                    lemma_dec_kept(a0, a_f, self.in_dim);
+                    lemma_sem_forward(a0, hs, a_f, self.a(), root, b, parent_idx);
+                    lemma_tr_forward(a_f, self.a(), to_remove@, vis, root, parent_idx);
                     lemma_el_forward(a_f, self.a(), root, s_cur, vis, d0, parent_idx);
                     lemma_kept_pruned(a0, a_f, self.a(), self.in_dim, parent_idx, root);
                 }
@@ -257,13 +284,22 @@ pub fn phase_one(&self, parent_idx: TreeIndex, poly: &Polytope, counter: &mut Pe
                 kept_ok(a0, self.a(), self.in_dim), a0 == old(self).a(), a0.dom().len() <= i32::MAX,
                 0 <= __j <= to_remove@.len(),
                 forall|j: int| 0 <= j < to_remove@.len() ==> (#[trigger] to_remove@[j]).0 < K,
+                ranked_down(a0, hs), dec_one_row(a0), sem_inv(a0, hs, self.a(), root, b), blame_ok(a0, b, vp), tr_ok(self.a(), to_remove@, vis),
             decreases to_remove@.len() - __j
+//@hint loop 2 after
+        proof { lemma_sem_final(a0, hs, self.a(), root, b); }
 //@hint before let _ = self.tree.try_remove_child(node, label);
                 let ghost a_r = self.a();
                 proof { vstd::set_lib::lemma_len_subset(a_r.dom(), a0.dom()); }
 //@hint after let _ = self.tree.try_remove_child(node, label);
                 proof {
                     let e = !(a_r.dom().contains(node) && a_r[node].children[label as int] is Some);
+                    lemma_dec_kept(a0, a_r, self.in_dim);
+                    if !e {
+                        assert(to_remove@[__j as int - 1] == (label, node));
+                        lemma_sem_remove(a0, hs, a_r, self.a(), root, b, node, label);
+                    }
+                    lemma_tr_remove(a_r, self.a(), to_remove@, vis, node, label, e);
                     lemma_kept_removed(a0, a_r, self.a(), self.in_dim, node, label, e);
                 }
 //@end
